@@ -117,6 +117,12 @@ def decode_closure(P, closure_path):
         if v[0] == 'unknown':
             continue
         v = resolve(st, v)
+        # a path on which `cast!(..).unwrap()` unwraps the Err built by the cast macro panics: not an outcome
+        panics = any(n[0] == 'via' and n[1].endswith('::unwrap') and unwrap_cast(n[2])[0] == 'agg' and unwrap_cast(n[2])[2] in ('Err', 'None')
+                     for n in walk(v))
+        if panics:
+            outs.append({'kind': 'panic', 'target': None, 'size': None, 'conds': [], 'expr': v})
+            continue
         if v[0] != 'agg' or not v[1].endswith('MessageOption'):
             outs.append({'kind': '?', 'expr': v})
             continue
